@@ -1170,6 +1170,11 @@ class IRGenerator:
         elif isinstance(obj, ApiRoutesByVersion):
             raise InvalidSpec('A route cannot be referenced here.',
                               *loc)
+        elif not isinstance(obj, DataType):
+            # Annotations, annotation types and imported namespaces share the
+            # environment with types but cannot be used as one.
+            raise InvalidSpec('%s is not a data type.' % quote(type_ref.name),
+                              *loc)
         elif type_ref.args[0] or type_ref.args[1]:
             # An instance of a type cannot have any additional
             # attributes specified.
